@@ -62,6 +62,8 @@ pub fn etags() -> Vec<Option<Vec<u8>>> {
         Some(b"\"v1\"".to_vec()),
         Some(b"W/\"v1\"".to_vec()),
         Some(b"\"a, b\"".to_vec()),
+        // obs-text (bytes >= 0x80) is legal inside an entity-tag
+        Some(b"\"v1-caf\xc3\xa9\xff\"".to_vec()),
     ]
 }
 
@@ -77,6 +79,11 @@ pub fn header_sets() -> Vec<Vec<(String, Vec<u8>)>> {
             ("content-type".into(), b"text/plain".to_vec()),
             ("content-language".into(), b"en".to_vec()),
             ("x-a".into(), b"1".to_vec()),
+        ],
+        // value bytes >= 0x80 that are not UTF-8 (Latin-1 file name): legal obs-text
+        vec![
+            ("content-disposition".into(), b"attachment; filename=\"caf\xe9.bin\"".to_vec()),
+            ("content-type".into(), b"application/x-caf\xe9".to_vec()),
         ],
         // a field with several values (HeaderMap::append): every value is one of the entity's headers
         vec![
@@ -265,7 +272,8 @@ pub fn fault_scripts(n: u64, kmax: usize, dev: usize, max_events: usize) -> Vec<
             }
         }
     }
-    out.push((FaultKind::Endless, vec![Ev::Data(1)], Tail::Repeat));
+    // an endless stream of small chunks (the piece size keeps the number of polls bounded)
+    out.push((FaultKind::Endless, vec![Ev::Data(if n <= 1000 { 1 } else { n / 7 + 1 })], Tail::Repeat));
     out.push((FaultKind::Endless, vec![Ev::Data(n)], Tail::Repeat));
     let mut res: Vec<(FaultKind, Script)> = out
         .into_iter()
